@@ -9,8 +9,17 @@ SD = os.path.join(vlib.SPECS, "netbuf")
 
 def build(c):
     srcs = [os.path.join(vlib.HARNESS, f) for f in ("drv_netbuf.c", "allocwrap.c")] + vlib.repo_srcs(
-        *(c06.EV_SRCS + ["network/network_read.c", "network/network_write.c", "netbuf/netbuf_read.c", "netbuf/netbuf_write.c"]))
-    return vlib.build(c.dir, "drv_netbuf", srcs, wraps=c06.WRAPS)
+        *(c06.EV_SRCS + ["network/network_read.c", "network/network_write.c", "netbuf/netbuf_read.c", "netbuf/netbuf_write.c", "netbuf/netbuf_ssl.c",
+                         "network_ssl/network_ssl.c", "network_ssl/network_ssl_compat.c"]))
+    return vlib.build(c.dir, "drv_netbuf", srcs, wraps=c06.WRAPS + TLS_WRAPS, libs=["-lssl", "-lcrypto"])
+
+
+# the TLS transport: netbuf_ssl_read_init / netbuf_ssl_write_init over network_ssl, the engine's plaintext side mapped onto the scripted sockets
+TLS_WRAPS = ["SSL_read_ex", "SSL_write_ex", "SSL_get_error", "SSL_shutdown", "SSL_set_fd"]
+
+
+def tls(p):
+    return p.replace("\nmain\n", "\nmain\n  tls\n", 1)
 
 
 def frag(rnd, fd, q, total, eof=None, spaced=True):
@@ -184,10 +193,12 @@ def main(c):
         progs.append(reader_program(rnd))
         progs.append(writer_program(rnd))
     progs += big_writer_programs(rnd)
+    # every fourth program over the TLS transport (same scripts: would-block becomes "want read" / "want write")
+    progs = [tls(p) if i % 4 == 3 else p for i, p in enumerate(progs)]
     vlib.conformance(c, exe, progs, SD, "NbTrace", "NbTrace.cfg", "nb", procs=12, shards=12,
                      nontrivial=lambda ex: any(e.get("e") in ("recv", "send") for e in ex))
     c.cov["rule"] = ("programs = wait(k)/peek/consume(j)/cancel chains (k from 1 to 5x the 4096-byte buffer, waits started from callbacks and from outside) "
                      "and write/reserve/consume sequences (sizes 0..3x4096, and single writes of 64 KiB .. 4 MiB) crossed with scripted kernel fragmentations, EAGAIN/EINTR, EOF and error positions; "
-                     "executed by the real netbuf/network/events code; every trace validated by TLC against NbTrace.tla; "
+                     "executed by the real netbuf/network/events code, every fourth program over netbuf_ssl / network_ssl with a scripted engine; every trace validated by TLC against NbTrace.tla; "
                      "non-trivial = at least one recv/send answered; distinct = SHA-256 of program")
     c.cov["trusted_base"] = ["TLC", "fake kernel + scripted sockets", "gcc ASan/UBSan"]
